@@ -375,6 +375,10 @@ class EQLTranslator:
 
     sql_query: Optional[Select] = None
     join_manager: JoinManager = field(default_factory=JoinManager)
+    disjunction_depth: int = field(default=0, init=False)
+    """
+    How many disjunctions enclose the condition that is being translated.
+    """
 
     @property
     def quantifier(self) -> SymbolicExpression:
@@ -464,7 +468,11 @@ class EQLTranslator:
         :param query: EQL query
         :return: SQL expression or None if all parts are handled via JOINs.
         """
-        parts = self._collect_logical_parts(query)
+        self.disjunction_depth += 1
+        try:
+            parts = self._collect_logical_parts(query)
+        finally:
+            self.disjunction_depth -= 1
         return self._combine_logical_parts(parts, or_)
 
     def _collect_logical_parts(self, query: Any) -> List[Any]:
@@ -597,6 +605,12 @@ class EQLTranslator:
             target_dao, target_fk, anchor_fk = right_dao, right_fk, left_fk
         else:
             target_dao, target_fk, anchor_fk = left_dao, left_fk, right_fk
+
+        if self.disjunction_depth:
+            # A JOIN restricts every row, it cannot hold for one side of a disjunction only.
+            raise UnsupportedQueryTypeError(
+                "An equality between attributes of two variables inside a disjunction cannot be translated"
+            )
 
         condition = target_fk == anchor_fk
         if self.join_manager.is_table_joined(target_dao):
